@@ -14,7 +14,7 @@ from __future__ import annotations
 import z3
 
 from .values import (
-    BoundMethod, BuiltinVal, ClassVal, Closure, EnumVal, ExcVal, FuncVal, HAbstract, HDict, HInst, HList, HSymList, HSymMap, HexStr, SymEnum,
+    BoundMethod, BuiltinVal, ClassVal, Closure, EnumVal, ExcVal, FuncVal, HAbstract, HDict, HInst, HList, HSet, HSymList, HSymMap, HexStr, SymEnum,
     LoweredSeq, ModuleVal, Opaque, Ref, Rope, SuperVal, SymBytes, SymSeq, Unsupported, is_intlike, is_sym, is_symbool, is_symint,
     to_z3bool, to_z3int,
 )
@@ -1091,7 +1091,16 @@ def call_builtin(I, f, args, kwargs, st, node=None):
         d.update(kwargs)
         return V(I.alloc(st, HDict(d)), st)
     if name == "set":
-        return V(frozenset(I.iterate(args[0], st, node)) if args else frozenset(), st)
+        # a mutable set object (set literals {a, b} stay immutable values): elements are added one by one so that equal ones are merged
+        ref = I.alloc(st, HSet([]))
+        out = [("val", ref, st)]
+        for x in (I.iterate(args[0], st, node) if args else []):
+            nxt = []
+            for k, v, s in out:
+                for k2, _v2, s2 in set_add(I, ref, x, s, node):
+                    nxt.append((k2, ref, s2))
+            out = nxt
+        return out
     if name == "range":
         if any(is_sym(a) for a in args):
             raise Unsupported("range with symbolic bounds (needs a loop invariant)", node)
@@ -1282,14 +1291,64 @@ def builtin_int(I, args, kwargs, st, node=None):
     raise Unsupported(f"int({v!r})", node)
 
 
+_UNICODE_RANGES = {}
+
+
+def unicode_ranges(pred):
+    """code point ranges on which str.<pred>() holds for a one-character string (this interpreter's Unicode database), computed once"""
+    if pred not in _UNICODE_RANGES:
+        out, start = [], None
+        f = getattr(str, pred)
+        for cp in range(0x110000):
+            ok = f(chr(cp))
+            if ok and start is None:
+                start = cp
+            elif not ok and start is not None:
+                out.append((start, cp - 1))
+                start = None
+        if start is not None:
+            out.append((start, 0x10FFFF))
+        _UNICODE_RANGES[pred] = out
+    return _UNICODE_RANGES[pred]
+
+
+def char_predicate(pred, code):
+    rs = unicode_ranges(pred)
+    return z3.Or(*[(code == lo) if lo == hi else z3.And(code >= lo, code <= hi) for lo, hi in rs]) if rs else z3.BoolVal(False)
+
+
+def set_add(I, ref, x, st, node=None):
+    """s.add(x): nothing when an equal element is present (symbolic equality: one path each way), appended otherwise"""
+    out = []
+    for k, present, s in contains(I, ref, x, st, node):
+        if k == "exc":
+            out.append((k, present, s))
+            continue
+        for b, s2 in I.split(I.truth_term(present, s), s):
+            if not b:
+                I.hmut(s2, ref).items.append(x)
+            out.append(("val", None, s2))
+    return out
+
+
 def call_method(I, typ, meth, recv, args, kwargs, st, node=None):
+    if typ == "str" and isinstance(recv, SymChar):
+        if meth in ("isalpha", "isdigit", "isspace", "isalnum", "isupper", "islower", "isnumeric", "isdecimal", "isidentifier", "isprintable", "isascii"):
+            return V(char_predicate(meth, recv.code), st)
+        if meth == "lower":
+            # ASCII letters only (the code under verification lower-cases mnemonics, suffixes and registers); other characters are left to the bounded sweeps
+            st.pc.append(recv.code < 128)
+            return V(SymChar(z3.If(z3.And(recv.code >= 65, recv.code <= 90), recv.code + 32, recv.code)), st)
+        raise Unsupported(f"str.{meth} on a symbolic character", node)
     if typ == "str" and isinstance(recv, (SymSeq, LoweredSeq)):
         if meth == "lower":
             return V(LoweredSeq(recv) if isinstance(recv, SymSeq) else recv, st)
         raise Unsupported(f"str.{meth} on a symbolic string", node)
     if typ == "str" and isinstance(recv, str):
         if meth in ("lower", "upper", "strip", "startswith", "endswith", "replace", "split", "ljust", "rjust", "format",
-                    "join", "isdigit", "find", "rstrip", "lstrip", "splitlines", "count", "index"):
+                    "join", "isdigit", "find", "rstrip", "lstrip", "splitlines", "count", "index", "isalpha", "isspace", "isalnum", "isupper", "islower",
+                    "isnumeric", "isdecimal", "isidentifier", "isprintable", "isascii", "title", "capitalize", "swapcase", "casefold", "zfill", "center", "partition", "rpartition",
+                    "rfind", "rindex", "rsplit", "expandtabs", "removeprefix", "removesuffix"):
             if any(is_sym(a) or isinstance(a, (Opaque, Ref)) for a in args):
                 if meth == "join":
                     items = I.iterate(args[0], st, node)
@@ -1339,6 +1398,26 @@ def call_method(I, typ, meth, recv, args, kwargs, st, node=None):
                     items.reverse()
                 out += V(SymBytes(items) if is_sym(recv) else bytes(int(str(i)) for i in items), s2)
             return out
+    if typ == "set" and isinstance(recv, Ref):
+        o = I.hget(st, recv)
+        if meth == "add":
+            return set_add(I, recv, args[0], st, node)
+        if meth in ("discard", "remove"):
+            raise Unsupported(f"set.{meth}", node)
+        if meth == "clear":
+            I.hmut(st, recv).items = []
+            return V(None, st)
+        if meth == "copy":
+            return V(I.alloc(st, HSet(o.items)), st)
+        if meth == "update":
+            out = [("val", None, st)]
+            for x in I.iterate(args[0], st, node):
+                nxt = []
+                for _k, _v, s in out:
+                    nxt += set_add(I, recv, x, s, node)
+                out = nxt
+            return out
+        raise Unsupported(f"method set.{meth}", node)
     if typ == "symlist":
         o = I.hget(st, recv)
         if meth == "append":
